@@ -78,7 +78,7 @@ def build(p):
         # rejection phase give up with a partial result, so the dense fallback runs on every size
         from ..xh.xutil import Tape, FakeRandom
         old = mod.random
-        mod.random = FakeRandom(Tape(concrete=STREAMS[p['seed']]))
+        mod.random = FakeRandom(Tape(concrete=STREAMS[p['seed']], limit=10 ** 7))
         try:
             return fn(p['k'], p['n'], p['m'], planted_assignments=[list(a) for a in p['planted']])
         finally:
